@@ -149,6 +149,40 @@ example : fits (-256) 2 ∧ instrLen (-256) = 3 := by
   · unfold fits; decide
   · simp [instrLen, numNibbles, nibLoop]
 
+theorem nibLoop_pow (k n : Nat) : nibLoop (16 ^ k) n = n + k := by
+  induction k generalizing n with
+  | zero => rw [nibLoop]; simp
+  | succ k ih =>
+    rw [nibLoop]
+    have h : 16 ^ (k + 1) ≥ 16 := by
+      have : 16 ^ 1 ≤ 16 ^ (k + 1) := Nat.pow_le_pow_right (by decide) (by omega)
+      simpa using this
+    rw [dif_pos h]
+    have : 16 ^ (k + 1) / 16 = 16 ^ k := by
+      rw [Nat.pow_succ]; exact Nat.mul_div_cancel _ (by decide)
+    rw [this, ih]; omega
+
+/-- The exceptional operands of `C04_length_minimal`, exactly: `-16^k` (k ≥ 2) is given `k + 1`
+    bytes although `k` bytes fit - for every k, not just the `-256` of the example. -/
+theorem C04_length_at_boundary (k : Nat) (hk : 2 ≤ k) :
+    instrLen (-(16 ^ k : Int)) = k + 1 ∧ fits (-(16 ^ k : Int)) k := by
+  have hpos : (0 : Int) < 16 ^ k := Int.pow_pos (by decide)
+  constructor
+  · unfold instrLen numNibbles
+    have h0 : ¬ (-(16 ^ k : Int)) = 0 := by omega
+    have hna : (-(16 ^ k : Int)).natAbs = 16 ^ k := by
+      rw [Int.natAbs_neg]; exact_mod_cast Int.natAbs_natCast (16 ^ k)
+    have hbig : ¬ (16 ^ k < 16) := by
+      have : 16 ^ 2 ≤ 16 ^ k := Nat.pow_le_pow_right (by decide) hk
+      omega
+    simp only [h0, if_false, hna, hbig, and_false, nibLoop_pow]
+    have hk0 : ¬ k = 0 := by omega
+    simp [hk0]; omega
+  · refine ⟨by omega, ?_⟩
+    have : (-(16 ^ k : Int)) < 0 := by omega
+    simp only [this, if_true]
+    exact ⟨hk, Int.le_refl _⟩
+
 /-! ### Whole instruction streams
 
     `C04` speaks of one instruction followed by arbitrary bytes; by induction the same holds for a
